@@ -406,6 +406,41 @@ def r8_flag_machine(ctx, fam):
                           where=where(f, node))
     if n < 3:
         raise AnalysisError('C19.R8 found only %d flag-lowering sites' % n)
+    # who signals: the connected event is set / cleared by the connection
+    # handlers only (a consumer that clears it can wipe out a set() made by
+    # the reconnection or by the final disconnect in between: the waiters
+    # then sleep for ever)
+    k = 0
+    for f in m.funcs:
+        owner = f
+        while owner.cls is None and owner.parent is not None:
+            owner = owner.parent
+        if owner.cls is not cls:
+            continue
+        for node in walk_own(f.node):
+            if isinstance(node, ast.Call) and \
+                    isinstance(node.func, ast.Attribute) and \
+                    U(node.func.value) == CEV and \
+                    node.func.attr in ('set', 'clear'):
+                k += 1
+                handler = (f is not owner and owner.name == 'connect' and
+                           f.name in want) or (
+                    # a reset while no connection exists
+                    f is owner and node.func.attr == 'clear' and
+                    owner.name in ('__init__', 'connect', 'disconnect'))
+                ctx.check(handler, '%s.%s' % (S, owner.name if f is owner
+                                              else owner.name + '.' + f.name),
+                          'the connected event is signalled by the '
+                          'connection handlers only', key='event-owner',
+                          reason='%s does %s() on the connected event: it '
+                          'can undo the set() of a reconnection or of the '
+                          'final disconnect that happened after its own '
+                          'test, and every caller of emit/call/receive then '
+                          'waits for ever' % (
+                              owner.name if f is owner else f.name,
+                              node.func.attr), where=where(f, node))
+    if k < 3:
+        raise AnalysisError('C19.R8 found only %d signalling sites' % k)
 
 
 def run(ctx):
